@@ -184,7 +184,6 @@ impl HyraxPC {
             old(rng->Some_0).id@, old(rng->Some_0).pos@ + hyrax_draws(polynomials@, i as nat))),   // name=hyrax.commit.rows_blinded_with_fresh_draws_of_the_callers_rng props=C07,C08,C19
         (res is Ok && polynomials@.len() > 0) ==> rng is Some,   // name=hyrax.commit.no_rng_no_commitment props=C07,C17
 //@body
-//@cfg !parallel
 //@rw * /rng\.expect\("[^"]*"\)/ => &mut expect_rng(rng)
 //@rw * /rand::thread_rng\(\)/ => thread_rng()
 //@rw * /label\.to_string\(\)/ => string_to_string(label)
@@ -192,16 +191,20 @@ impl HyraxPC {
 //@rw 1 /let mut states = Vec::new\(\);/ => let mut states: Vec<HyraxCommitmentState> = Vec::new();
 //@rw 1 /let dim = 1 << n \/ 2;/ => proof { vstd::arithmetic::power2::lemma_pow2_strictly_increases((n / 2) as nat, 64); vstd::arithmetic::power2::lemma2_to64(); vstd::arithmetic::power2::lemma_pow2_pos((n / 2) as nat); vstd::bits::lemma_usize_shl_is_mul(1usize, (n / 2) as usize); }
             let dim: usize = 1 << n / 2;
-//@rw 1 /(?s)let \(row_coms, com_rands\): \(Vec<_>, Vec<_>\) = cfg_iter!\(m\)\s*\.map\(\|row\| \{(.*?)\(c, r\)\s*\}\)\s*\.unzip\(\);/ => let mut row_coms: Vec<G1Affine> = Vec::new(); let mut com_rands: Vec<Fr> = Vec::new();
+//@rw 1 /(?s)let com_rands: Vec<G::ScalarField> = \(0\.\.m\.len\(\)\)\s*\.map\(\|_\| (.*?)\)\s*\.collect\(\);/ => let mut com_rands: Vec<Fr> = Vec::new();
             let ghost posk = rng_inner.pos@;
-            for row in itr: m.iter()
-                invariant itr.index@ <= m@.len(), row_coms@.len() == itr.index@, com_rands@.len() == itr.index@,
-                    rng_inner.id@ == id0 && rng_inner.present@ && rng_inner.pos@ == posk + itr.index@, forall|j: int| 0 <= j < itr.index@ ==> (#[trigger] com_rands@[j])@ == draw(id0, posk + j as nat),
-                    forall|j: int| 0 <= j < itr.index@ ==> (#[trigger] row_coms@[j])@ == f_add(pedersen(ck.com_key@, fviews(m@[j]@)), f_mul(ck.h@, com_rands@[j]@)),
+            let mut ri__: usize = 0;
+            while ri__ < m.len()
+                invariant ri__ <= m@.len(), com_rands@.len() == ri__, rng_inner.id@ == id0 && rng_inner.present@ && rng_inner.pos@ == posk + ri__,
+                    forall|j: int| 0 <= j < ri__ ==> (#[trigger] com_rands@[j])@ == draw(id0, posk + j as nat),
+                decreases m@.len() - ri__,
             {
-                \1
-                row_coms.push(c); com_rands.push(r);
+                let r__ = \1;
+                com_rands.push(r__);
+                ctr_inc(&mut ri__);
             }
+//@rw 1 /(?s)let row_coms: Vec<_> = cfg_iter!\(m\)\s*\.zip\(cfg_iter!\(com_rands\)\)\s*\.map\(\|\(row, r\)\| (.*?)\)\s*\.collect\(\);/ => let row_coms: Vec<G1Affine> = m.iter().zip(com_rands.iter()).map(|q__: (&Vec<Fr>, &Fr)| -> (c: G1Affine) ensures c@ == f_add(pedersen(ck.com_key@, fviews(q__.0@)), f_mul(ck.h@, q__.1@)) { let (row, r) = q__; \1 }).collect();
+            proof { assert forall|j: int| 0 <= j < m@.len() implies (#[trigger] row_coms@[j])@ == f_add(pedersen(ck.com_key@, fviews(m@[j]@)), f_mul(ck.h@, com_rands@[j]@)) by { } }
 //@after start
         let ghost id0 = if rng is Some { rng->Some_0.id@ } else { 0 };
         let ghost pos0 = if rng is Some { rng->Some_0.pos@ } else { 0 };
@@ -371,56 +374,4 @@ impl HyraxPC {
             }
 //@end
 
-//@fn id=hyrax.commit.parallel file=poly-commit/src/hyrax/mod.rs scope="impl<G, P> PolynomialCommitment<G::ScalarField, P> for HyraxPC<G, P>" name=commit props=C07,C08,C19,C17
-    // the DEFAULT build (feature "parallel"): same source function, the other branch of its #[cfg] attributes
-    fn commit__parallel<'a>(ck: &HyraxUniversalParams, polynomials: Vec<&'a LabeledML>, rng: Option<&mut Rng>) -> (res: Result<(Vec<LabeledCommitment<HyraxCommitment>>, Vec<HyraxCommitmentState>), Error>)
-    requires
-        forall|i: int| 0 <= i < polynomials@.len() ==> (#[trigger] polynomials@[i]).polynomial.num_vars < 64,
-    ensures
-        res is Ok ==> (forall|i: int| 0 <= i < polynomials@.len() ==> hyrax_admissible(ck, (#[trigger] polynomials@[i]))),   // name=hyrax.commit.parallel.odd_or_too_many_variables_refused props=C17
-        res is Ok ==> res->Ok_0.0@.len() == polynomials@.len() && res->Ok_0.1@.len() == polynomials@.len(),   // name=hyrax.commit.parallel.one_commitment_and_state_per_polynomial props=C19
-        res is Ok ==> (forall|i: int| 0 <= i < polynomials@.len() ==> hyrax_commit_shape(ck, (#[trigger] polynomials@[i]), &res->Ok_0.0@[i], &res->Ok_0.1@[i])),   // name=hyrax.commit.parallel.rows_are_blinded_pedersen_commitments props=C08,C19
-        // C07: the blinding comes from the caller's generator, and without one nothing is committed
-        res is Ok && rng is Some ==> (forall|i: int| 0 <= i < polynomials@.len() ==> hyrax_draws_from(&(#[trigger] res->Ok_0.1@[i]), old(rng->Some_0).id@, old(rng->Some_0).pos@ + hyrax_draws(polynomials@, i as nat))),   // name=hyrax.commit.parallel.blinding_drawn_from_the_callers_rng props=C07 finding=F9
-        (res is Ok && polynomials@.len() > 0) ==> rng is Some,   // name=hyrax.commit.parallel.no_rng_no_commitment props=C07,C17 finding=F9
-//@body
-//@cfg parallel
-//@rw * /rand::thread_rng\(\)/ => thread_rng()
-//@rw * /label\.to_string\(\)/ => string_to_string(label)
-//@rw 1 /let mut coms = Vec::new\(\);/ => let mut coms: Vec<LabeledCommitment<HyraxCommitment>> = Vec::new();
-//@rw 1 /let mut states = Vec::new\(\);/ => let mut states: Vec<HyraxCommitmentState> = Vec::new();
-//@rw 1 /let dim = 1 << n \/ 2;/ => proof { vstd::arithmetic::power2::lemma_pow2_strictly_increases((n / 2) as nat, 64); vstd::arithmetic::power2::lemma2_to64(); vstd::arithmetic::power2::lemma_pow2_pos((n / 2) as nat); vstd::bits::lemma_usize_shl_is_mul(1usize, (n / 2) as usize); }
-            let dim: usize = 1 << n / 2;
-//@rw 1 /(?s)let \(row_coms, com_rands\): \(Vec<_>, Vec<_>\) = cfg_iter!\(m\)\s*\.map\(\|row\| \{(.*?)\(c, r\)\s*\}\)\s*\.unzip\(\);/ => let mut row_coms: Vec<G1Affine> = Vec::new(); let mut com_rands: Vec<Fr> = Vec::new();
-            for row in itr: m.iter()
-                invariant itr.index@ <= m@.len(), row_coms@.len() == itr.index@, com_rands@.len() == itr.index@,
-                    forall|j: int| 0 <= j < itr.index@ ==> (#[trigger] row_coms@[j])@ == f_add(pedersen(ck.com_key@, fviews(m@[j]@)), f_mul(ck.h@, com_rands@[j]@)),
-            {
-                \1
-                row_coms.push(c); com_rands.push(r);
-            }
-//@loop 1 kw=for name=it
-            invariant it.index@ <= polynomials@.len(), coms@.len() == it.index@, states@.len() == it.index@,
-                forall|i: int| 0 <= i < polynomials@.len() ==> (#[trigger] polynomials@[i]).polynomial.num_vars < 64,
-                forall|i: int| 0 <= i < it.index@ ==> hyrax_admissible(ck, (#[trigger] polynomials@[i])) && hyrax_commit_shape(ck, polynomials@[i], &coms@[i], &states@[i]),
-//@loopstart 1
-            let ghost k = it.index@;
-//@loopend 1
-            proof {
-                assert(hyrax_commit_shape(ck, polynomials@[k], &coms@[k], &states@[k])) by {
-                    reveal(hyrax_commit_shape);
-                    let st = &states@[k]; let c = &coms@[k];
-                    assert(st.mat.entries@ == m0);
-                }
-            }
-//@before /let com = HyraxCommitment \{ row_coms \};/
-            let ghost m0 = m@;
-//@before /let m = flat_to_matrix_column_major/
-            proof {
-                assert(l_poly == polynomials@[k]);
-                vstd::arithmetic::power2::lemma_pow2_adds((n / 2) as nat, (n / 2) as nat);
-                vstd::arithmetic::power2::lemma_pow2_strictly_increases(n as nat, 64); vstd::arithmetic::power2::lemma2_to64();
-                assert(dim * dim == vstd::arithmetic::power2::pow2(n as nat));
-            }
-//@end
 }
